@@ -51,7 +51,29 @@ def stress_job(rng, tier):
     for i, nm in enumerate(("big1.bin", "big2.bin", "big3.txt")):
         unit = ("%s-%d|" % (nm, i)) * 8
         tree.append({"path": "d/" + nm, "data": (unit * (300000 // len(unit) + 1))[:300000 + 1000 * i], "mtime": c10.T0})
+    # a script that echoes the CGI-style environment it is run with
+    tree.append({"path": "d/env.sh", "mode": 0o755, "mtime": c10.T0, "data":
+                 "#!/bin/sh\necho \"SELECTOR=$SELECTOR\"\necho \"REQUEST=$REQUEST\"\necho \"SEARCHREQUEST=${SEARCHREQUEST-<unset>}\"\n"
+                 "echo \"REMOTE_ADDR=$REMOTE_ADDR\"\necho \"REMOTE_PORT=$REMOTE_PORT\"\necho \"SERVER_NAME=$SERVER_NAME\"\n"
+                 "echo \"SERVER_PORT=$SERVER_PORT\"\n"})
+    tree.append({"path": "env2.sh", "mode": 0o755, "mtime": c10.T0, "data":
+                 "#!/bin/sh\necho \"second script SELECTOR=$SELECTOR SEARCHREQUEST=${SEARCHREQUEST-<unset>} REMOTE_PORT=$REMOTE_PORT\"\n"})
     reqs = {}
+    # script requests WITHOUT a search string come first in the sequential phase, those with one later
+    scr_plain, scr_search = [], []
+    for key, proto, gp in c10.PROTOKEYS:
+        if key in ("gopher", "sgopher", "http", "https", "gemini", "gopherplus+"):
+            for sel in ("/d/env.sh", "/env2.sh"):
+                data, tls = gen.request_bytes(proto, sel, gplus=gp)
+                reqs["%s %s" % (key, sel)] = {"data": gen.lat(data), "tls": tls}
+                scr_plain.append("%s %s" % (key, sel))
+    for key, proto, gp in c10.PROTOKEYS:
+        if key in ("gopher", "sgopher", "http", "https", "gemini", "gopherplus+"):
+            for sel in ("/d/env.sh", "/env2.sh"):
+                q = "query-%s-%d" % (key.rstrip("+"), len(scr_search))
+                data, tls = gen.request_bytes(proto, sel, gplus=gp, search=q)
+                reqs["%s %s ?%s" % (key, sel, q)] = {"data": gen.lat(data), "tls": tls}
+                scr_search.append("%s %s ?%s" % (key, sel, q))
     for key, proto, gp in c10.PROTOKEYS:
         if key in ("gopher", "http", "https", "spartan", "gopherplus+"):
             for sel in (["/d/big1.bin", "/d/big2.bin", "/d/big3.txt"] if key != "gopherplus+" else []) + \
@@ -78,9 +100,11 @@ def stress_job(rng, tier):
     hnames = [n for n in names if n.split(" ")[0] in ("wapdetect", "browser", "http", "wap")]
 
     bignames = [n for n in names if "/big" in n]
+    scripts = scr_plain + scr_search
 
     def burst(n, rogues=0):
-        b = [rng.choice(dnames) if rng.random() < 0.4 else (rng.choice(bignames) if rng.random() < 0.4 else rng.choice(names + pnames))
+        b = [rng.choice(dnames) if rng.random() < 0.35 else (rng.choice(bignames) if rng.random() < 0.3 else
+                                                            (rng.choice(scripts) if rng.random() < 0.4 else rng.choice(names + pnames)))
              for _ in range(n)]
         return {"names": b, "rogues": [rng.choice(["tls-garbage", "tls-abandon", "reset"]) for _ in range(rogues)]}
 
@@ -97,6 +121,11 @@ def stress_job(rng, tier):
         pairs.append([rng.choice(hnames), rng.choice(hnames)])
         pairs.append([rng.choice(names + pnames), rng.choice(names + pnames)])
     pairs += [["wapdetect /d", "browser /d"], ["browser /", "wapdetect /"], ["wapdetect /d/sub", "http /d/sub"]]
+    # script requests with and without a search string, interleaved
+    for _ in range(4 if tier == "thorough" else 2):
+        pairs.append([rng.choice(scr_search), rng.choice(scr_plain)])
+        pairs.append([rng.choice(scr_plain), rng.choice(scr_search)])
+        pairs.append([rng.choice(scr_search), rng.choice(scr_search)])
     sizes = [8, 32, 32] + ([64, 64] if tier == "thorough" else [])
     # start-up bursts against a perturbed threading server: staggered arrivals, listings first
     lnames = [n for n in names if n.split(" ", 1)[1] in ("/d", "/", "/d/sub")]
@@ -106,7 +135,10 @@ def stress_job(rng, tier):
         offs = [round(i * spread, 4) for i in range(12)] if spread else sorted(round(rng.random() * 0.04, 4) for _ in range(12))
         perturbed.append({"nap": nap, "names": pn, "offsets": offs, "after": ["gopher /d", "http /d", "gopherplus$ /", "gemini /d/sub"]})
     seqs = [["http-head /d", "gopher /d", "http /d"], ["gopherplus! /", "gopherplus$ /", "wap /"],
-            ["https-head /d/sub", "gemini /d/sub"]]
+            ["https-head /d/sub", "gemini /d/sub"],
+            # a script asked with a search string, then the same and another script without one
+            [scr_search[0], scr_plain[0], scr_plain[1]], [rng.choice(scr_search), rng.choice(scr_plain), rng.choice(scr_search),
+                                                          rng.choice(scr_plain)]]
     import c11
     return {"perturbed": perturbed, "pairs": pairs, "probe_sequences": seqs,
             # the full-featured handler list (type-prefixed selectors, ZIP, compressed files ...), as conf/local.conf
@@ -356,6 +388,11 @@ def run(tier):
                                    % (st, lb.get("survivors", 0), " and the port still accepts connections"
                                       if lb.get("port_still_accepting") else ""), "after": a, "left_behind": lb, "job": sj},
                           tag="rogue-process:" + st)
+        if not a.get("process_state_unchanged", True):
+            found = True
+            chk.violation({"what": "%s: the environment / working directory of the server process is not what it was before the "
+                                   "requests (variables added: %s)" % (st, a.get("environ_keys_added")), "after": a, "job": sj},
+                          tag="process-state-changed:" + st)
         if a["stat"]["active_children"] or a["child_processes_running"] or a["zombies"] or a["stat"]["threads"] > 2:
             found = True
             chk.violation({"what": "%s: workers not reaped after the bursts" % st, "after": a, "job": sj},
